@@ -369,6 +369,8 @@ fn main() {
     report.assume("the connection state machine is quinn-proto's (a dependency); the check observes compio-quic's public API only");
     report.assume("'k-th event' is counted per run: the number and order of events of a run depend on real-time packet arrival, so the same k may denote slightly different moments in different runs");
     report.assume("loopback UDP between two sockets of the same process; datagram loss is legal and only counted");
+    report.assume("the futures that wait for the drain period (Connection::closed, Endpoint::shutdown) are watched with a deadline that follows the measured round-trip time (5 s + 40 x smoothed rtt); a close run whose rtt estimate exceeds 50 ms (overloaded machine) does not wait for the drain period at all (counter drain_wait_skipped_inflated_rtt); a blocked `write` is pending at the close point only in the small-window rows");
+    report.assume("the peer of the closing side learns about the close from a CONNECTION_CLOSE packet over real UDP: its futures are expected to resolve within the watchdog, an expiry that does not reproduce is listed under unreproduced_watchdog_expiries and not reported");
     report.extra(
         "not_covered",
         json!([
